@@ -16,7 +16,7 @@ EXPLANATION = (
     "(module, node): shared with C09.R2. (R4) the evaluator honours the resolver's binding (shared with C08.R1-R3): a use must not "
     "evaluate to a same-named binding of a caller. Correctness of values and attachment to the right declaration need a reference "
     "semantics and are not decided.")
-EXPLANATION += " Further clauses: (R5) NAME-AGREE - a field filled from a like-named field or annotation key is filled from that one; (R6) ENUM-MAP - the sibling mapping tables agree; (R7) FALLBACK-ORDER - precedence of the two sources of one field (frozen table of 4 rows); (R8) REF-TRANSPARENT - every cast treats a named reference as its value; (R9) JOIN-AGREE (shared C10.R5); (R10) every `res` statement is enumerated; (R11) COMPONENT-KEPT (shared C03.R1). (R12) COMBINE - the combinators of spec.rs carry what the language says (concat: the right operand's query parameters only; a schema used as content keeps its description; a URI used as relation is its uri). (R13) MERGED-ENTRY - an output entry shared by several declarations is added to, never overwritten field-wise; (R14) GRAMMAR-AGREE - every kind of child a production attaches is read by some typed accessor of the parent; (R15) SHARED-VALUE - the cached value of a reference does not depend on use-site annotations."
+EXPLANATION += " Further clauses: (R5) NAME-AGREE - a field filled from a like-named field or annotation key is filled from that one; (R6) ENUM-MAP - the sibling mapping tables agree; (R7) FALLBACK-ORDER - precedence of the two sources of one field (frozen table of 4 rows); (R8) REF-TRANSPARENT - every cast treats a named reference as its value; (R9) JOIN-AGREE (shared C10.R5); (R10) every `res` statement is enumerated; (R11) COMPONENT-KEPT (shared C03.R1). (R12) COMBINE - the combinators of spec.rs carry what the language says (concat: the right operand's query parameters only; a schema used as content keeps its description; a URI used as relation is its uri). (R13) MERGED-ENTRY - an output entry shared by several declarations is added to, never overwritten field-wise; (R14) GRAMMAR-AGREE - every kind of child a production attaches is read by some typed accessor of the parent; (R15) SHARED-VALUE - the cached value of a reference does not depend on use-site annotations. R12 also requires the whole right path to be appended by concat; (R16) RANGE-KEY - the status of a response is fixed when its content is evaluated and the emitter uses the key unchanged; (R17) ANNOTATION-PLACE (shared C05.R1)."
 TECHNIQUE = "static analysis: field read/write census on MIR + insertion-site census classified by resolved callee with a frozen triage table"
 
 SPEC_OWNER = re.compile(r'^(oal_compiler::)?spec::(\w+)$')
